@@ -11,7 +11,7 @@ From FlacCodec Require Ast Stream Spec Wf.
 From FlacWriters Require Import Params Params_proofs Finalize Writers Encoder_proofs C09_proofs.
 From FlacE2E Require Bridge E2E Success.
 From FlacE2EMeta Require Import MetaBridge FinishedBlocks.
-From FlacE2EUpd Require Import RealCodec CodecView UpdateE2E FaultsE2E WrittenEdited.
+From FlacE2EUpd Require Import RealCodec CodecView UpdateE2E FaultsE2E WrittenEdited WrittenBytes.
 Open Scope N_scope.
 
 Lemma run_edits_snoc (u : list N -> bool) edit : forall edits file fn rs fn' r,
@@ -72,4 +72,46 @@ Proof.
   apply (K (edits ++ [edit]) out (rs ++ [Ok b])); [| |exact Hre2].
   - apply Forall_app. split; [exact T|]. constructor; [exact Te|constructor].
   - apply Forall_app. split; [exact KS|]. constructor; [exact Ke|constructor].
+Qed.
+
+(* ... and with no typing hypothesis at all when the device holds the file as written (empty edit history): the written
+   file is a byte string (WrittenBytes.v) *)
+Theorem written_then_faulty_update : forall (u : list N -> bool),
+  (forall s, Forall (fun b => b < 128) s -> u s = true) ->
+  forall o L md5, (forall l, length (md5 l) = 16%nat) -> (forall l, Forall (fun b => b < 256) (md5 l)) ->
+  forall p rate bps ch, rate < 2 ^ 20 -> 1 <= bps -> bps <= 32 -> 1 <= ch -> ch <= 8 ->
+  forall wo total w chunks,
+  options_wf wo -> Forall plain (o_metadata wo) -> seektables (o_metadata wo) = 0%nat ->
+  sample_new p [] wo rate bps ch total = Ok w ->
+  forallb (FlacCodec.Wf.fits bps) (concat chunks) = true ->
+  let W := N.of_nat (length (concat chunks)) / ch in
+  1 <= W -> N.of_nat (length (concat chunks)) < 2 ^ 36 ->
+  match total with Some T => T = ch * W | None => True end ->
+  exists f blocks,
+    sample_run (FlacE2E.E2E.encB o L rate bps) md5 p w chunks = Ok f /\
+    concat (map FlacCodec.Stream.interleave_frame blocks) =
+      firstn (N.to_nat ch * (length (concat chunks) / N.to_nat ch)) (concat chunks) /\
+    Forall byte (f_stream f) /\
+    forall (cap : nat) (ck : list N -> list (list N)) (edit : U.blocklist FlacMeta.Blocks.block -> res (U.blocklist FlacMeta.Blocks.block)) (rbf : bool)
+           (w1 w2 : IO.world) (b : bool) (w1' w2' : IO.world),
+      (0 < cap)%nat -> IO.ck_ok ck -> FlacUpdIo.IoFault_proofs.honest (IO.sr (IO.wsched w1)) ->
+      IO.wdev w1 = {| IO.data := f_stream f; IO.pos := 0 |} -> IO.wdev w2 = {| IO.data := []; IO.pos := 0 |} ->
+      typed_edit u edit -> U.keeps_streaminfo FlacMeta.Blocks.block edit ->
+      IO.update_file_io FlacMeta.Blocks.block psize_r ser_r uclass_r (read_blocks_b u) true cap ck edit rbf w1 w2 = (Ok b, w1', w2') ->
+      let out := if b then IO.data (IO.wdev w2') else IO.data (IO.wdev w1') in
+      FlacCodec.Stream.dec_stream out =
+        Some (FlacE2E.Bridge.conv_si (f_si f), map FlacCodec.Stream.interleave_frame blocks, FlacCodec.Stream.EndEof) /\
+      FlacCodec.Spec.spec_stream out = FlacCodec.Spec.spec_stream (f_stream f) /\
+      exists meta_n, out = meta_n ++ frames_bytes (f_enc f).
+Proof.
+  intros u Hu o L md5 Hmd5 Hmd5b p rate bps ch Hrate Hb1 Hb32 Hc1 Hc8 wo total w chunks Hwf Hpl Hs0 Hnew Hfits W HW Hlen Htot.
+  destruct (written_edited_then_faulty_update u Hu o L md5 Hmd5 Hmd5b p rate bps ch Hrate Hb1 Hb32 Hc1 Hc8 wo total w chunks
+              Hwf Hpl Hs0 Hnew Hfits HW Hlen Htot) as (f & blocks & Hrun & Hcat & K).
+  destruct (FlacE2E.Success.sample_run_succeeds o L md5 Hmd5 p rate bps ch Hrate Hb1 Hb32 Hc1 Hc8 wo total w chunks
+              Hwf Hnew Hfits HW Hlen Htot) as (f' & Hrun' & Hfit).
+  assert (Ef : f' = f) by (rewrite Hrun in Hrun'; inversion Hrun'; reflexivity). subst f'.
+  pose proof (sample_written_file_is_bytes o L md5 Hmd5 Hmd5b p wo rate bps ch total w chunks f Hwf Hpl Hs0 Hnew Hrun Hfit) as Hbytes.
+  exists f, blocks. split; [exact Hrun|]. split; [exact Hcat|]. split; [exact Hbytes|].
+  intros cap ck edit rbf w1 w2 b w1' w2' Hcap Hck Hh Hw1 Hw2 Te Ke Hio.
+  exact (K [] (f_stream f) [] (Forall_nil _) (Forall_nil _) eq_refl cap ck edit rbf w1 w2 b w1' w2' Hcap Hck Hh Hw1 Hw2 Hbytes Te Ke Hio).
 Qed.
